@@ -1,7 +1,7 @@
 """Which rules decide which property."""
 from __future__ import annotations
 
-from .rules import frag, c01, c02, c03, c11, c14, c18, c19, c20
+from .rules import frag, c01, c02, c03, c11, c14, c18, c19, c20, cglob
 
 ASSUME = [
     'stdlib ast and re._parser front ends are correct',
@@ -132,6 +132,84 @@ PROPERTIES = {
             ('C15-R3', c14.rule_run_prologue, 'quick'),
             ('C15-R4', c14.rule_match_or_skip, 'quick'),
             ('C15-R4', c14.rule_yield_passthrough, 'quick'),
+        ],
+    },
+    'C04': {
+        'explanation': 'agreement analysis between the glob walker and the REALPATH matcher: regex application, platform twin '
+                       'selection, follow rule, flag normalisation, capture-group budget, directory slash, root-relative '
+                       'file-system access (taint rule), existence gate',
+        'assumptions': ASSUME + ['equality of the two result sets on real trees is a runtime quantity and is not decided'],
+        'rules': [
+            ('C01-R3ii', c01.rule_fullmatch_sites, 'quick'),
+            ('C04-R2', cglob.rule_platform_twins, 'quick'),
+            ('C04-R3', cglob.rule_follow_rule, 'quick'),
+            ('C04-R4', cglob.rule_negate_flags_normalised, 'quick'),
+            ('C02-R8', c02.rule_forced_pathname, 'quick'),
+            ('C04-R5', cglob.rule_globstar_capture, 'quick'),
+            ('C04-R5', frag.rule_capture_budget, 'quick'),
+            ('C04-R6', cglob.rule_exclusion_slash, 'quick'),
+            ('C04-R7', cglob.rule_root_relative_fs, 'quick'),
+            ('C04-R8', cglob.rule_no_root_first, 'quick'),
+            ('C04-R8', frag.rule_const_fragments, 'quick'),
+            ('C04-R9', cglob.rule_existence_gate, 'quick'),
+            ('C03-R4', c03.rule_exclusion_dotmatch, 'quick'),
+        ],
+    },
+    'C05': {
+        'explanation': 'static analysis of the glob walker: full-match application of per-segment patterns, case-fold agreement, '
+                       'magic classification, provenance of `.`/`..`, globstar hand-over shape',
+        'assumptions': ASSUME + ['completeness on real trees and Bash equivalence are runtime quantities and are not decided'],
+        'rules': [
+            ('C01-R3ii', c01.rule_fullmatch_sites, 'quick'),
+            ('C05-R2', cglob.rule_case_fold_agreement, 'quick'),
+            ('C13-R1', cglob.rule_seen_key, 'quick'),
+            ('C05-R3', cglob.rule_magic_classification, 'quick'),
+            ('C02-R5', c02.rule_globstar_predicate, 'quick'),
+            ('C05-R4', cglob.rule_specials_and_start, 'quick'),
+            ('C03-R5', c03.rule_walker_hidden, 'quick'),
+            ('C05-R5', cglob.rule_globstar_handover, 'quick'),
+        ],
+    },
+    'C06': {
+        'explanation': 'control-dependence analysis of the recursive descent on the link test, follow-rule decision tables, symlink '
+                       'inspection of the matcher, followlinks of WcMatch',
+        'assumptions': ASSUME + ['scandir call counts and wall-clock bounds are not decided'],
+        'rules': [
+            ('C06-R1', cglob.rule_link_test, 'quick'),
+            ('C03-R5', c03.rule_walker_hidden, 'quick'),
+            ('C04-R3', cglob.rule_follow_rule, 'quick'),
+            ('C02-R6', c02.rule_matchbase, 'quick'),
+            ('C06-R3', cglob.rule_fs_match_links, 'quick'),
+            ('C04-R5', cglob.rule_globstar_capture, 'quick'),
+            ('C14-R4', c14.rule_pruning, 'quick'),
+            ('C14-R1', c14.rule_wcmatch_flags, 'quick'),
+        ],
+    },
+    'C12': {
+        'explanation': 'static analysis of glob.py: argument forwarding glob -> iglob -> Glob, trailing-separator decision table, '
+                       'NODIR pairing, root-relative file-system access (taint rule), definition-before-use of is_abs_pattern',
+        'assumptions': ASSUME + ['existence of each result and its spelling are runtime quantities and are not decided'],
+        'rules': [
+            ('C12-R1', cglob.rule_iglob_glob, 'quick'),
+            ('C12-R2', cglob.rule_trailing_separator, 'quick'),
+            ('C12-R3', cglob.rule_nodir_glob, 'quick'),
+            ('C04-R6', cglob.rule_exclusion_slash, 'quick'),
+            ('C04-R2', cglob.rule_platform_twins, 'quick'),
+            ('C04-R7', cglob.rule_root_relative_fs, 'quick'),
+            ('C12-R5', cglob.rule_abs_pattern_def, 'quick'),
+            ('C18-R5', c18.rule_type_checks, 'quick'),
+        ],
+    },
+    'C13': {
+        'explanation': 'static analysis of glob.py: seen-set key agreement, dominance of every yield by the exclusion test, de-dupe '
+                       'predicates (propositional comparison), forced DOTMATCH on exclusion compiles',
+        'assumptions': ASSUME + ['that the union really is the union on every tree is a runtime quantity and is not decided'],
+        'rules': [
+            ('C13-R1', cglob.rule_seen_key, 'quick'),
+            ('C13-R2', cglob.rule_yield_filtered, 'quick'),
+            ('C13-R3', cglob.rule_dedupe_predicate, 'quick'),
+            ('C03-R4', c03.rule_exclusion_dotmatch, 'quick'),
+            ('C04-R6', cglob.rule_exclusion_slash, 'quick'),
         ],
     },
 }
